@@ -21,8 +21,9 @@ InputOf(r)  == [FileIn EXCEPT ![1] = r.in]
 \* "ok" | "undef" | "refused" | a description of the mismatch
 Judge(r) ==
   LET s == PreState(r)  t == Step(s, InputOf(r)) IN
-  IF t.st = "undef" THEN (IF r.x = 1 /\ r.st # "throw" /\ t.why \in {"addr", "svcaddr", "fetch"} THEN "executed-out-of-range" ELSE "undef")
+  IF t.st = "undef" THEN (IF r.x = 2 THEN "executed-out-of-range" ELSE IF r.x = 1 /\ r.st # "throw" /\ t.why \in {"addr", "svcaddr", "fetch"} THEN "executed-out-of-range" ELSE "undef")
   ELSE IF r.x = 0 THEN "refused"
+  ELSE IF r.x = 2 THEN "crashed executing a defined instruction"
   ELSE IF r.st = "throw" THEN "threw on a defined instruction"
   ELSE IF <<t.pc, t.a, t.b, t.o>> # <<r.post[1], r.post[2], r.post[3], r.post[4]>> THEN "registers"
   ELSE IF \E k \in 1..Len(r.w) : Rd(t.mem, r.w[k][1]) # r.w[k][2] THEN "written word"
